@@ -87,5 +87,4 @@ func (w *World) doAdvEvent(in Intent) {
 }
 
 func (w *World) doGov(in Intent)          {}
-func (w *World) doExportImport(in Intent) {}
 func (w *World) doLogicCall(in Intent)    {}
